@@ -225,6 +225,13 @@ CONSTRUCTED = [
         {"op": "new_init", "p": 0, "sp": {"a": 1, "n": {"x": 1}}}, {"op": "new_init", "p": 0, "sp": {"a": 2, "n": {"x": 1}}}, {"op": "new_project", "p": 0},
         {"op": "new_id", "p": 0, "k": 0, "how": "id", "lazy": True}, {"op": "sp_assign", "h": 2, "sp": {"a": 2, "n": {"x": 1}}, "via": "statepoint"},
         {"op": "init", "h": 2}, {"op": "update_statepoint", "h": 2, "m": {"c": 0}, "overwrite": False}, {"op": "touch_sp", "h": 2}]},
+    # reset() through a handle that has seen the directory, after the job was removed through another handle, creates the job again
+    {"two_projects": False, "ops": [
+        {"op": "new_init", "p": 0, "sp": {"a": 0}}, {"op": "write", "h": 0, "name": "f.txt", "data": "x"}, {"op": "new_sp", "p": 0, "sp": {"a": 0}},
+        {"op": "remove", "h": 1}, {"op": "reset", "h": 0}, {"op": "touch_sp", "h": 0}]},
+    {"two_projects": False, "ops": [
+        {"op": "new_init", "p": 0, "sp": {}}, {"op": "new_project", "p": 0}, {"op": "new_id", "p": 0, "k": 0, "how": "cursor"}, {"op": "touch_sp", "h": 1},
+        {"op": "remove", "h": 0}, {"op": "reset", "h": 1}, {"op": "touch_sp", "h": 1}]},
     # clear() / reset() take nested payload along, not only the files at the top of the job directory
     {"two_projects": False, "ops": [
         {"op": "new_init", "p": 0, "sp": {"a": 0}}, {"op": "write", "h": 0, "name": "sub/h.txt", "data": "hello\n"},
